@@ -11,18 +11,19 @@ namespace NV.C18
 
 open NV.Gen.C18
 
-/-! ## F4: the same header included twice -/
+/-! ## the repaired defect F4: the same header included twice used to reuse the file id -/
 
 /-- main file (id 1): line 1, `#include` t (id 2, two lines), `#include` t again; stop at line 2 of the second copy -/
 def reincP : List LexEv := [.nl, .incl 2, .nl, .eof, .incl 2, .nl]
 
-/-- in the second copy of the header the decoder adds the length of the first copy: line 2 is reported as line 4 -/
+/-- with the same id for both copies the decoder adds the length of the first copy: line 2 is reported as line 4 -/
 theorem reinclude_wrong :
     (lexRun { fileId := 1 } reincP).fileId = 2 ∧ (lexRun { fileId := 1 } reincP).curLine = 2 ∧
     translateAbs (lexRun { fileId := 1 } reincP).abs (lexFinish (lexRun { fileId := 1 } (reincP ++ [.eof, .nl]))).fi
       = some (2, 4) := by decide
 
-/-- **¬ file_roundtrip_Full**: without the freshness condition the statement is false (known finding C18-F4) -/
+/-- **¬ file_roundtrip_Full**: with a reused file id (what `add_program_file` did before the fix) the id-level
+    statement is false; `NV.C18.file_roundtrip` proves that the repaired allocation never reuses an id -/
 theorem file_roundtrip_Full_false : ¬ file_roundtrip_Full := by
   intro h
   have := h 1 reincP [.eof, .nl] (by decide) (by decide)
@@ -65,20 +66,34 @@ def signedTab : Tab := { psize := 11, fi := [⟨40007, 1⟩], li := [⟨1, 0⟩,
 theorem signed_short_wrong : findLineSigned signedTab 10 = .ok 1 (-25531) ∧ findLine signedTab 10 = .ok 1 40005 := by
   decide
 
-/-! ## F1: code of variable initialisers gets no runs -/
+/-! ## the repaired defect F1: code of variable initialisers had no runs -/
 
-/-- `switch_to_line` does nothing at all while the initialiser block is being generated -/
-theorem init_block_ignored (st : Enc) (l a : Int) : switchToLine st l a aInitializer = st := by
+/-- while the initialiser block is generated `switch_to_line` only notes where a new line starts: the tables and the
+    bookkeeping of the program block are untouched -/
+theorem init_block_only_noted (st : Enc) (l a : Int) :
+    (switchToLine st l a aInitializer).liRev = st.liRev ∧ (switchToLine st l a aInitializer).lastSize = st.lastSize ∧
+    (switchToLine st l a aInitializer).lineBeing = st.lineBeing := by
   unfold switchToLine
-  simp [aInitializer, aProgram]
+  by_cases h : l = st.initLine <;> simp [h]
 
-/-- replay of the hook events of `int x_ = 5; int z_; ⏎ ⏎ int y_ = 10 / z_;` (probe `init`): the 14 bytes of `__INIT`
-(generated under lines 1 and 4) end up in one run under line 0 -/
+/-- replay of the real hook events of `… ⏎ ⏎ ⏎ mixed g_ = 10 / z_; int go() { return 1; }` (case `b-init`, initialiser
+    on line 7): the 9 bytes of `__INIT` placed at address 3 get their own run under line 7.  Before the fix the
+    table was the single run `12:0` and the error was reported at line 0. -/
 theorem init_replay :
-    (encRun [.begin, .addFile 1 "m.c", .sw 1 0 20, .sw 1 2 20, .sw 4 5 20, .sw 4 5 20, .sw 4 7 20, .sw 4 10 20,
-             .init 3 14, .fi 1 9, .sw (-1) 17 0, .fin 17]).li = [⟨17, 0⟩] := by
-  have h17 : runsOf 17 0 = [⟨17, 0⟩] := by rw [runsOf_le (by decide)]
+    (encRun [.begin, .addFile 1 "m.c", .sw 7 0 20, .init 3 9, .replay 7 3, .fi 1 9, .sw (-1) 12 0, .fin 12]).li
+      = [⟨3, 0⟩, ⟨9, 7⟩] := by
+  have h3 : runsOf 3 0 = [⟨3, 0⟩] := by rw [runsOf_le (by decide)]
+  have h9 : runsOf 9 7 = [⟨9, 7⟩] := by rw [runsOf_le (by decide)]
   have hu : u16 0 = 0 := by decide
-  simp [encRun, encStep, init_block_ignored, saveFileInfo, switchToLine, Enc.li, aProgram, hu, h17]
+  have hu7 : u16 7 = 7 := by decide
+  simp [encRun, encStep, placeInit, saveFileInfo, switchToLine, Enc.li, aProgram, aInitializer, hu, hu7, h3, h9]
+
+/-- the same layout through the repaired id allocation: the second copy gets id 3 and decodes to its own line 2 -/
+theorem reinclude_repaired :
+    let p : List LexEvN := [.nl, .incl 7, .nl, .eof, .incl 7, .nl]
+    let q : List LexEvN := [.eof, .nl]
+    (lexRunN (initN 5) p).curName = 7 ∧
+    translateAbs (lexRunN (initN 5) p).lex.abs (lexFinish (lexRunN (initN 5) (p ++ q)).lex).fi = some (3, 2) ∧
+    (lexRunN (initN 5) (p ++ q)).tbl = [5, 7, 7] := by decide
 
 end NV.C18
